@@ -141,8 +141,17 @@ func (c *dslCtx) dslRewrite(depth int, first bool) *Rewrite {
 			kind = Intersection
 		}
 		n := rapid.IntRange(2, 4).Draw(c.t, "n")
+		wide := rapid.IntRange(0, 7).Draw(c.t, "wide") == 0
+		if wide {
+			// many operands at one level (5..15), the last one drawn freely (often a parenthesised group)
+			n = rapid.IntRange(5, 15).Draw(c.t, "nWide")
+		}
 		r := &Rewrite{Kind: kind}
 		for i := 0; i < n; i++ {
+			if wide && i >= 3 && i < n-1 {
+				r.Kids = append(r.Kids, c.leaf())
+				continue
+			}
 			r.Kids = append(r.Kids, c.dslRewrite(depth+1, first && i == 0))
 		}
 		return r
